@@ -109,6 +109,8 @@ type DetInformer struct {
 	cursor    int // next index in API.Log to examine
 	Split     bool
 	Delivered int
+	// OnTombstone, if set, is told about every object a relist finds gone (with the cache's last copy of it)
+	OnTombstone func(k Kind, cached interface{})
 }
 
 func NewDetInformer(k Kind) *DetInformer {
@@ -310,6 +312,9 @@ func (d *DetInformer) Relist(api *API) (int, int) {
 			continue
 		}
 		_ = d.raw.Delete(old)
+		if d.OnTombstone != nil {
+			d.OnTombstone(d.Kind, old)
+		}
 		ns = append(ns, notification{typ: Deleted, obj: cache.DeletedFinalStateUnknown{Key: key, Obj: old}})
 	}
 	d.Delivered += len(ns)
